@@ -24,9 +24,9 @@ LEVEL_TEXT = {
 
 LEVEL_TEXT.update({
     "C06": "Lean 4: the read API over the object store has no store among its results (purity by construction, said so in DESIGN), get(store_default) stores nothing when the path is found, failed pops leave the store, using a path only fills caches (SameShape), and a decide-theorem over the store table regenerated from /repo's AST on every run (only the writers store into document containers). Tie: query correspondence plus a python-side deep-snapshot oracle (identities, order, contents) around repeated read-only calls on the same document and path object.",
-    "C08": "Lean 4 frame theorems on the heap model: a non-cascading set_ either fails with the store unchanged or writes exactly one object, allocates nothing and returns a match holding v itself; characterisation of key / index / append / out-of-range / wrong-kind / other-step / root cases; histories never change the number of objects. Tie: whole object graph under canonical object numbers after every call of random histories.",
+    "C08": "Lean 4 frame theorems on the heap model: a non-cascading set_ either fails with the store unchanged or writes exactly one object, allocates nothing and returns a match holding v itself; characterisation of key / index / append / out-of-range / wrong-kind / other-step / root cases; histories never change the number of objects. Transport to the definition (set_parent_is_the_definitions_first): by naturality of the traverser in the document type and 'store ~ unfolded tree', the container a successful set_ writes is the first result of the step-by-step definition of the parent path on the JSON tree the document unfolds to. Tie: whole object graph under canonical object numbers after every call of random histories.",
     "C09": "Lean 4 theorem (induction over the cascade recursion): whatever the outcome, at most one pre-existing object is written (the deepest existing container), every other pre-existing object is untouched, nothing is removed, created containers are fresh empty dict/list per step kind, a fresh list only appends, wrong-type levels are never overwritten, store_default = the same cascade. Tie: object graphs of cascading histories with reused expression objects.",
-    "C10": "Lean 4 theorems: pop_match either leaves the store unchanged (nothing matched / unsupported last step / error) or returns the first match of get_match and writes exactly one object; dict and list removal are dictErase / eraseIdx; pop returns the found value or the default. Tie: object graphs of pop / pop_match / set_ histories.",
+    "C10": "Lean 4 theorems: pop_match either leaves the store unchanged (nothing matched / unsupported last step / error) or returns the first match of get_match and writes exactly one object; dict and list removal are dictErase / eraseIdx; pop returns the found value or the default. popped_match_is_the_definitions_first: the match removed is the definition's first result on the unfolded tree (naturality + exception-faithful refinement). Tie: object graphs of pop / pop_match / set_ histories.",
     "C14": "Lean 4 theorems on Match handles: assignment makes the parent container hold v itself at the name and writes only that object; del / pop remove as dict / list deletion; pop returns the value it removes (needs fix F4; the stale-cache history is a checked example); missing entries give PopError or the default. Tie: histories over 1-4 live handles incl. aliases, shifted list items, matches behind filters.",
     "C15": "Lean 4 theorems over the vertex-store model with explicit caches: extension allocates a fresh vertex and writes no existing field; the WF invariant (caches unset or equal to the function of the vertex's own chain) is preserved by extension, rendering and path_as_list; rendering = pure function of the chain whatever the history; equivalent spellings (attr vs item via the generated reserved-name table, wc/wildcard, gwc/generic_wildcard, rec/recursive, dash rewriting, .gwc vs [gwc]). Tie: renderings and selections of random derivation DAGs.",
     "C16": "Lean 4 theorems: for supported steps next() raises only TraversingError-wrapping-the-cause or InfiniteLoopDetected (induction over the budget, per-vertex abort analysis), get_match adds only (Nested)MatchNotFoundError, vertex.set fails only with SetError, root set/pop give SetError/PopError (fix F3), unsupported indices give PathSyntaxError (fix F6), decide-theorem over the exception MRO table regenerated from the source. Tie: exception class chains in all families; python-side oracle for escaping exceptions and str()/repr() stability.",
